@@ -100,7 +100,7 @@ class C07(Prop):
             tmpl.append(gen.rand_axis(rng, extra[0], maxn=3, minn=1))
         rng.shuffle(tmpl)
         return {"op": "reindex_like", "array": arr, "template": [gen.clean(t) for t in tmpl], "fill": "nan",
-                "raise": False, "method": None, "_how": "like"}
+                "raise": rng.random() < 0.3, "method": rng.choice([None, None, None, "left", "right"]), "_how": "like"}
 
     def exhaustive(self):
         """axes of length <= 3 and requests of length <= 3 from a 5-label universe, all orders"""
@@ -134,7 +134,12 @@ class C07(Prop):
         def run():
             if c["op"] == "reindex_like":
                 tmpl = Axes_from(c["template"])
-                return core.obs_array(a.reindex_like(tmpl), toks)
+                kw = {}
+                if c["raise"]:
+                    kw["raise_error"] = True
+                if c["method"]:
+                    kw["method"] = c["method"]
+                return core.obs_array(a.reindex_like(tmpl, **kw), toks)
             d = c["axis"][1]
             axd = axis_of(c)
             vals = [core.dec_label(l, c["newkind"]) for l in c["labels"]]
@@ -166,7 +171,7 @@ class C07(Prop):
         arr = core.lean_array(gen.clean(c["array"]), toks)
         if c["op"] == "reindex_like":
             return {"op": "reindex_like", "arrays": [arr], "template": [core.lean_axis(t, None) for t in c["template"]],
-                    "fillkind": "f"}
+                    "fillkind": "f", "raise": c["raise"], "method": c["method"]}
         return {"op": "reindex", "arrays": [arr], "axis": c["axis"], "labels": c["labels"], "newkind": c["newkind"],
                 "fillkind": FILLS[c["fill"]][1], "raise": c["raise"], "method": c["method"]}
 
